@@ -470,3 +470,166 @@ func tokenize(s string) []string {
 }
 
 var debugOn = os.Getenv("GOSYM_DEBUG") != ""
+
+func (a *SolverStats) add(b SolverStats) {
+	a.Queries += b.Queries
+	a.Sat += b.Sat
+	a.Unsat += b.Unsat
+	a.Unknown += b.Unknown
+	a.TimeS += b.TimeS
+	a.CacheHits += b.CacheHits
+	if b.MaxQueryS > a.MaxQueryS {
+		a.MaxQueryS = b.MaxQueryS
+	}
+	for k, v := range b.BySolver {
+		a.BySolver[k] += v
+	}
+	for k, v := range b.TimeBy {
+		a.TimeBy[k] += v
+	}
+}
+
+// IncSession is an incremental z3 session for many small goals over one path condition:
+// the definitions and the path condition are sent once, every goal is checked under push/pop.
+// Anything but a clean sat/unsat answer makes the caller fall back to a self-contained query.
+type IncSession struct {
+	sp      *SolverProc
+	p       *Printer
+	so      *Solver
+	dead    bool
+	count   int
+	pc      []*Term
+	started bool
+}
+
+func (so *Solver) NewSession(pc []*Term) *IncSession {
+	return &IncSession{sp: solverSpec("z3new"), p: NewPrinter(), so: so, pc: pc}
+}
+
+// start launches the solver and sends the path condition (on the first non-trivial goal).
+func (is *IncSession) start() {
+	is.started = true
+	if err := is.sp.start(); err != nil {
+		is.dead = true
+		return
+	}
+	for _, t := range is.pc {
+		is.p.emit(t)
+	}
+	for _, t := range is.pc {
+		if !t.isTrue() {
+			fmt.Fprintf(&is.p.sb, "(assert %s)\n", is.p.ref(t))
+		}
+	}
+	text := "(set-option :produce-models true)\n" + is.p.sb.String()
+	is.p.sb.Reset()
+	lines, ok := is.sp.exchange(text, 60000)
+	if !ok {
+		is.dead = true
+	}
+	for _, l := range lines {
+		if strings.HasPrefix(l, "(error") {
+			is.dead = true
+		}
+	}
+}
+
+func (is *IncSession) Close() { is.sp.kill() }
+
+// Check decides pc ∧ conds. ok=false means "no clean answer": use a standalone query.
+func (is *IncSession) Check(conds []*Term, tmoMs int) (Answer, bool) {
+	if is.dead {
+		return Answer{}, false
+	}
+	for _, c := range conds {
+		if c.isFalse() {
+			return Answer{status: "unsat", solver: "simplifier"}, true
+		}
+	}
+	if !is.started {
+		is.start()
+		if is.dead {
+			return Answer{}, false
+		}
+	}
+	t0 := time.Now()
+	for _, c := range conds {
+		is.p.emit(c)
+	}
+	var sb strings.Builder
+	sb.WriteString(is.p.sb.String())
+	is.p.sb.Reset()
+	fmt.Fprintf(&sb, "(set-option :timeout %d)\n(push 1)\n", tmoMs)
+	for _, c := range conds {
+		if !c.isTrue() {
+			fmt.Fprintf(&sb, "(assert %s)\n", is.p.ref(c))
+		}
+	}
+	sb.WriteString("(check-sat)\n")
+	lines, ok := is.sp.exchange(sb.String(), tmoMs)
+	if !ok {
+		is.dead = true
+		return Answer{}, false
+	}
+	status := ""
+	for _, l := range lines {
+		if strings.HasPrefix(l, "(error") {
+			is.dead = true
+			is.sp.kill()
+			return Answer{}, false
+		}
+		if status == "" && (l == "sat" || l == "unsat" || l == "unknown" || l == "timeout") {
+			status = l
+		}
+	}
+	ans := Answer{status: status, solver: "z3new-inc"}
+	good := true
+	if status == "sat" {
+		var gv strings.Builder
+		gv.WriteString("(get-value (")
+		for _, n := range is.p.order {
+			gv.WriteString(smtName(n) + " ")
+		}
+		gv.WriteString("))\n")
+		if len(is.p.order) > 0 {
+			vl, ok := is.sp.exchange(gv.String(), 60000)
+			if !ok {
+				is.dead = true
+				return Answer{}, false
+			}
+			m, _ := parseValues(strings.Join(vl, "\n"), is.p, nil)
+			if m == nil {
+				good = false
+			}
+			ans.model = m
+		} else {
+			ans.model = map[string]uint64{}
+		}
+	} else if status != "unsat" {
+		good = false
+	}
+	if _, ok := is.sp.exchange("(pop 1)\n", 10000); !ok {
+		is.dead = true
+	}
+	ans.secs = time.Since(t0).Seconds()
+	is.count++
+	is.so.stats.Queries++
+	is.so.stats.BySolver["z3new-inc"]++
+	is.so.stats.TimeBy["z3new-inc"] += ans.secs
+	is.so.stats.TimeS += ans.secs
+	if ans.secs > is.so.stats.MaxQueryS {
+		is.so.stats.MaxQueryS = ans.secs
+	}
+	if !good {
+		return Answer{}, false
+	}
+	if status == "sat" {
+		is.so.stats.Sat++
+	} else {
+		is.so.stats.Unsat++
+	}
+	if debugOn {
+		fmt.Fprintf(os.Stderr, "  [solver z3new-inc] %.2fs %s\n", ans.secs, status)
+	}
+	return ans, true
+}
